@@ -93,6 +93,7 @@ def check(ctx):
     check_ranking(ctx)
     check_counter_capacity(ctx)
     check_correlation_backfill(ctx)
+    check_zero_norm_guard(ctx)
     # neighbours and correlations of one bootstrap iteration are paired
     # by position: the two lists are filled in lock-step
     from ..rules.nodekeys import check_zip_alignment
@@ -586,3 +587,74 @@ def check_correlation_backfill(ctx):
     if n == 0:
         raise AnalysisError('run_type_assignment: the inheritance of '
                             'avg_correlation was not found')
+
+
+def check_zero_norm_guard(ctx):
+    """a cell (or reference profile) that is constant over the drawn genes
+    has norm 0 after centring; its correlation is defined as 0 by setting
+    that norm to 1 before dividing.  The rows to treat that way are those
+    whose *norm* is zero: the mask of the replacement is computed from the
+    norm itself.  A mask computed from the data before centring (all-zero
+    rows) misses constant non-zero rows, and the division yields NaN."""
+    db = ctx.db
+    fi = db.fn('utils.distance_utils:_subtract_mean_and_normalize_cpu')
+    ctx.touch(fi)
+    cfg = cfg_of(fi)
+    rd = rd_of(fi)
+    rule = 'R-GUARD/zero-norm'
+    n = 0
+    for node in cfg.nodes:
+        if node.kind != 'stmt' or node.id not in rd.live:
+            continue
+        divs = [e for root in node.exprs if root is not None
+                for e in ast.walk(root)
+                if isinstance(e, ast.BinOp) and isinstance(e.op, ast.Div)
+                and isinstance(e.right, ast.Name)]
+        if isinstance(node.ast, ast.AugAssign) and isinstance(
+                node.ast.op, ast.Div) and isinstance(
+                    node.ast.value, ast.Name):
+            divs.append(ast.BinOp(left=node.ast.target, op=ast.Div(),
+                                  right=node.ast.value))
+        for e in divs:
+            den = e.right.id
+            sl = backward_slice(fi, e.right, node.id)
+            if not sl.has_call('sqrt'):
+                continue
+            n += 1
+            # replacement stores  den[mask] = c  that dominate the division
+            ok = False
+            detail = 'no replacement of zero norms before the division'
+            for g in cfg.nodes:
+                if g.kind != 'stmt' or g.id not in rd.live or not isinstance(
+                        g.ast, ast.Assign):
+                    continue
+                tg = g.ast.targets[0]
+                if isinstance(tg, ast.Subscript) and isinstance(
+                        tg.value, ast.Name) and tg.value.id == den \
+                        and cfg.dominates(g.id, node.id):
+                    msl = backward_slice(fi, tg.slice, g.id)
+                    if den in msl.names:
+                        ok = True
+                    else:
+                        detail = (f'the rows whose norm is replaced '
+                                  f'(`{unparse(tg.slice)[:40]}`) are not '
+                                  'chosen by a test of the norm')
+                # norm = np.where(norm == 0, 1, norm)
+                if isinstance(tg, ast.Name) and tg.id == den and isinstance(
+                        g.ast.value, ast.Call) and cfg.dominates(
+                            g.id, node.id):
+                    nm = getattr(g.ast.value.func, 'attr', getattr(
+                        g.ast.value.func, 'id', ''))
+                    if nm == 'where' and den in {
+                            x.id for x in ast.walk(g.ast.value)
+                            if isinstance(x, ast.Name)}:
+                        ok = True
+            ctx.ob(rule, f'{fi.qual}:div#{n - 1}', fi.loc(node.ast), ok,
+                   'zero norms are replaced, selected by a test of the '
+                   'norm, before the division' if ok else
+                   f'`{unparse(node.ast)[:50]}`: {detail}; a profile that '
+                   'is constant but not zero over the drawn genes divides '
+                   'by zero and yields NaN correlations')
+    if n == 0:
+        raise AnalysisError('_subtract_mean_and_normalize_cpu: no division '
+                            'by the norm found')
